@@ -21,6 +21,8 @@ def normalize(v, ty):
     """bring a returned value to the declared return type (so clauses can treat results uniformly)"""
     if ty is None or type(v).__name__ == "PyRecord":
         return v
+    if type(v).__name__ == "SecV" and ty is IntT:
+        return v.sec if isinstance(v.sec, Sym) else Sym(IntT, coerce(v.sec, IntT))
     if isinstance(ty, TupleTy):
         if isinstance(v, (tuple, list)) and len(v) == len(ty.elems):
             return tuple(normalize(x, t) for x, t in zip(v, ty.elems))
